@@ -216,7 +216,9 @@ class Ev:
                 else:
                     cur = ("index", cur, iv)
             elif k == "cindex":
-                if not is_addr and cur[0] == "load":
+                if not is_addr and cur[0] == "agg" and cur[1] == "array" and not p.get("from_end") and p["i"] < len(cur[3]):
+                    cur = cur[3][p["i"]]       # element of an array literal (destructured `let [a, b, ..] = [..]`)
+                elif not is_addr and cur[0] == "load":
                     cur = ("load", ("cindex", cur[1], p["i"]), cur[2])
                 else:
                     cur = ("cindex", cur, p["i"])
